@@ -49,4 +49,4 @@ def run(ctx):
     ctx.assumptions += ["rounding envelope assumed (K as in C01, magnitudes with |a|+|b| per difference)", "'true derivative' = derivative of the selected polynomial piece (one-sided convention of C01)"]
 
 def replay(ctx, path):
-    print(open(path).read()[:4000]); run(ctx)
+    V.replay(ctx, path, line_checker=line_checker)
